@@ -251,7 +251,7 @@ func (cv *conv) regDesc(host string) regDesc {
 
 func (cv *conv) genCall() authsim.CallSpec {
 	rng := cv.rng
-	spec := authsim.CallSpec{Host: hostR1, Method: "GET"}
+	spec := authsim.CallSpec{Host: hostR1, Method: []string{"GET", "GET", "HEAD", "DELETE"}[rng.IntN(4)]}
 	if rng.IntN(10) < 3 {
 		spec.Host = hostR2
 	}
